@@ -29,12 +29,16 @@ LEVEL = 'exploration'
 # budget of the Hypothesis part (user expressions / odd names); the
 # exhaustive default-rule part is not budgeted
 BUDGET = {'quick': 1200, 'thorough': 40000}
-EXHAUSTIVE = {'quick': True, 'thorough': True}
+S_BUDGET = {'quick': 240, 'thorough': 6000}
+# (part A alone is exhaustive over its stated bound: see the evidence key
+# part_A_exhaustive; parts B and C are sampled)
+EXHAUSTIVE = {'quick': False, 'thorough': False}
 MANIFEST = {
     'engine': 'P',
     'technique': 'exhaustive enumeration of bounded task definitions x all '
                  'subsets of completed outputs + Hypothesis for user '
-                 'completion expressions',
+                 'completion expressions + PBT on the stepped scheduler for '
+                 'pool retention',
 }
 RULE = (
     'Part A (exhaustive, not budgeted): every task definition with '
@@ -54,7 +58,7 @@ RULE = (
     'the evidence = is_complete() calls compared. Non-trivial: default rule: '
     '>=1 optional declared output and >=1 required declared output other '
     'than implicit success; user expression: mixes and/or. Distinct by the '
-    'definition.')
+    'definition.  ' + __import__('vf.props.c11_s', fromlist=['S_RULE']).S_RULE)
 ASSUMPTIONS = [
     'Default rule asserted: tolerated outcome present (failed when succeeded '
     'or failed is optional; submit-failed when submitted or submit-failed is '
@@ -270,6 +274,9 @@ def _last_wins(done, outputs):
 
 
 def check_case(case, ctx: Ctx, tdef=None) -> CaseResult:
+    if isinstance(case, dict) and case.get('kind') == 'S':
+        from vf.props.c11_s import check_s_case
+        return check_s_case(case, ctx)
     from cylc.flow.exceptions import CylcError
     from cylc.flow.parsec.exceptions import ParsecError
     from vf.cylcutil import load_config
@@ -458,5 +465,9 @@ def run_shard(ctx: Ctx):
             for v in ctx.col.filter_known(res.violations):
                 ctx.col.add_violation(v, case)
     ctx.col.extra['exhaustive_definitions'] = len(mine)
+    ctx.col.extra['part_A_exhaustive'] = True
     # Part B: Hypothesis
     hyp_run(ctx, definitions(), check_case, ctx.share(BUDGET[ctx.tier]))
+    # Part C: scheduler level (retained exactly when incomplete)
+    from vf.props.c11_s import s_cases
+    hyp_run(ctx, s_cases(), check_case, ctx.share(S_BUDGET[ctx.tier]))
